@@ -78,9 +78,9 @@ func TestC05_AfterComponent(t *testing.T) {
 // TestC05_ResponseBody: the same bytes reach an http.ResponseWriter.
 func TestC05_ResponseBody(t *testing.T) {
 	c := harness.New(t, "C05", "response-body",
-		"every sequence of <= 3 pieces from {%, %d, %s, %v, %%, 100%;, %!, (MISSING), a letter, space, LF, CRLF, }}, {, backslash, é, @, -, an escaped {{, an escaped @if} written as the only page of a template directory and rendered with String and with Response (httptest recorder): both give the text the reference scanner expects (plain text unchanged, escapes without their backslash), the returned error is nil; the same file configured as custom error page is written byte for byte by a failing Response. Exhaustive. Non-trivial: contains a percent sign or an escape. Distinct by construction.")
+		"every sequence of <= 3 pieces from {%, %d, %s, %v, %%, 100%;, %!, (MISSING), a letter, space, LF, CRLF, }}, {, backslash, é, @, -, an escaped {{, an escaped @if, a byte order mark U+FEFF} written as the only page of a template directory and rendered with String and with Response (httptest recorder): both give the text the reference scanner expects (plain text unchanged, escapes without their backslash), the returned error is nil; the same file configured as custom error page is written byte for byte by a failing Response. Exhaustive. Non-trivial: contains a percent sign or an escape. Distinct by construction.")
 	defer c.Finish()
-	pieces := []string{"%", "%d", "%s", "%v", "%%", "100%;", "%!", "(MISSING)", "a", " ", "\n", "\r\n", "}}", "{", "\\", "é", "@", "-", "\\{{", "\\@if"}
+	pieces := []string{"%", "%d", "%s", "%v", "%%", "100%;", "%!", "(MISSING)", "a", " ", "\n", "\r\n", "}}", "{", "\\", "é", "@", "-", "\\{{", "\\@if", "\uFEFF"}
 	idx := 0
 	var rec func(prefix string, depth int)
 	rec = func(prefix string, depth int) {
@@ -109,7 +109,7 @@ func TestC05_ResponseBody(t *testing.T) {
 		}
 	}
 	rec("", 0)
-	c.ExhaustivePart("20 pieces, sequences of length 1..3 that are plain or fully escaped")
+	c.ExhaustivePart("21 pieces, sequences of length 1..3 that are plain or fully escaped")
 }
 
 func c05Response(c *harness.Check, cs treeCase) string {
